@@ -15,6 +15,5 @@ INVARIANT M_RedundancyMonotone
 INVARIANT M_NoCriticalImpliesObservable
 INVARIANT M_LayoutOrderFree
 INVARIANT M_LayoutDupFree
-INVARIANT M_FirstRowSound
-INVARIANT M_TableIsSet
+INVARIANT M_TableSound
 PROPERTY M_ActionsKeepRequirement
